@@ -846,6 +846,35 @@ impl Check for Attribution {
     type Case = AttrCase;
     const NAME: &'static str = "attribution";
 
+    fn normalise(mut case: AttrCase) -> AttrCase {
+        case.cell %= 21;
+        // the Bitfinex cell opens a loopback WebSocket per case: far too slow for a coverage-guided
+        // campaign, it stays with the property-based engine
+        if CELLS[case.cell as usize] == Cell::BitfinexTrades {
+            case.cell = (case.cell + 1) % 21;
+        }
+        case.form %= 3;
+        case.instruments.truncate(5);
+        while case.instruments.len() < 2 {
+            case.instruments.push(InstGen { base: case.instruments.len() as u8, quote: 3, kind_sel: 0, expiry_sel: 0, strike: 0, call: true });
+        }
+        case.messages.truncate(7);
+        for m in &mut case.messages {
+            m.trades.truncate(3);
+            if m.trades.is_empty() {
+                m.trades.push(TradeGen { price_m: 1, price_s: 0, amount_m: 1, amount_s: 0, buy: true, dt_ms: 0, id: 1 });
+            }
+            for t in &mut m.trades {
+                t.price_m = 1 + t.price_m % 9_999_999;
+                t.amount_m = 1 + t.amount_m % 999_999;
+                t.dt_ms %= 100_000;
+                t.id = 1 + t.id % 999_999;
+            }
+        }
+        case.repeats.truncate(2);
+        case
+    }
+
     fn strategy(_tier: Tier) -> BoxedStrategy<AttrCase> {
         (
             0u8..21,
